@@ -170,6 +170,12 @@ def run(ck):
     from ..report import run_parallel
     run_parallel(ck, "spverif.props.c08", "types_task", [(c_,) for c_ in CONCRETE])
     run_parallel(ck, "spverif.props.c08", "fields_task", [("all",)])
+    acts = range(9) if ck.tier == "thorough" else (0, 2, 3, 4, 6)
+    ntasks = [(cls, t0, a, L1) for cls, t0 in (("FileStoreRequestTlv", 0), ("FileStoreResponseTlv", 1)) for a in acts for L1 in (0, 3)]
+    run_parallel(ck, "spverif.props.c08", "names_task", ntasks)
+    cnt = ck.analysed.get("filestore name analyses", 0)
+    ck.floors = [f for f in ck.floors if f[0] != "filestore name analyses"]
+    ck.floor("filestore name analyses", cnt, len(ntasks))
     # ---------------------------------------------------------------- status code table
     it = new_interp(P)
     sc = {n_: v.a[0] for n_, v in it.class_namespace(P.cls(f"{DEFS}.FilestoreResponseStatusCode").qual).items() if v.k == "const" and isinstance(v.a[0], int)}
@@ -313,6 +319,93 @@ def fields_task(ck, task):
         if not nslices:
             probs.append("no alternative takes the name from the input")
         ck.verdict("W-UNPACK", f"{cls}.unpack", "first file name == decode(data[4 : 4+L1]), L1 = octet 3 (empty for L1 = 0)", probs, f"{nslices} slice alternative(s)")
+
+
+TWO_NAME_ACTIONS = (2, 3, 4)        # rename, append, replace (727.0-B-5 table 5-16)
+
+
+def _octet_leaves(t):
+    """leaves of a gated name / value term with decode() and `is not None` gates removed"""
+    if t.k == "gamma":
+        return _octet_leaves(t.a[1]) + _octet_leaves(t.a[2])
+    if t.k == "call" and t.a[0] == "decode":
+        return _octet_leaves(t.a[1][0])
+    while t.k == "bcat" and len(t.a[0]) == 1 and t.a[0][0].k == "bytes":
+        t = t.a[0][0].a[0]
+    return [t]
+
+
+def _extent_problems(term, lo, hi, what):
+    """every non-empty alternative of `term` must be data[lo:hi]; -> (problems, number of slice alternatives)"""
+    from ..bits import buffer_pos
+    probs, n = [], 0
+    for lf in _octet_leaves(term):
+        if lf.k == "undef" or (lf.k == "bcat" and not lf.a[0]) or (lf.k == "const" and lf.a[0] in (b"", "", None)):
+            continue
+        if lf.k != "slice":
+            probs.append(f"{what}: alternative {show(lf)[:60]} is not a slice of the input")
+            continue
+        n += 1
+        a = buffer_pos(lf, Lin({}, 0))
+        b = buffer_pos(T("slice", lf.a[0], lf.a[2], NONE), Lin({}, 0)) if not D.is_const(lf.a[2], None) else None
+        if a is None or b is None or a[1].key() != lo.key() or b[1].key() != hi.key():
+            probs.append(f"{what} taken from data[{a[1] if a else '?'!r} : {b[1] if b else '?'!r}]; reference data[{lo!r} : {hi!r}]")
+    return probs, n
+
+
+def names_task(ck, task):
+    """second file name and filestore message of the filestore TLVs sit where 727.0-B-5 5.4.1/5.4.2 puts them: after the
+    first LV, counted in octets (one analysis per class, action code and first-name length)"""
+    P = Program(ck.repo)
+    cls, t0, act, L1 = task
+    data = sym("data", ty="bytes")
+    it = new_interp(P); env = Env()
+    it.concrete_bytes[("data", 0)] = t0
+    it.concrete_bytes[("data", 2)] = act << 4
+    it.concrete_bytes[("data", 3)] = L1
+    fn = f"{cls}.unpack"
+    tag = f"action code {act}, first name of {L1} octets"
+    try:
+        dec = call_method(it, env, T("class", P.cls(f"{TL}.{cls}").qual), "unpack", [data])
+    except Unsupported as e:
+        ck.unknown("W-UNPACK", fn, tag, str(e))
+        return
+    ck.floor("filestore name analyses", 1, 0)
+    if env.dead:
+        ck.refuted("W-UNPACK", fn, f"decoder accepts some input ({tag})", "every path raises")
+        return
+    _sc = {}
+    simp = lambda v: D.simplify(D.simplify(v, env.facts, _sc), env.facts, _sc)
+    p1, n1 = _extent_problems(simp(read_path(it, env, dec, "first_file_name")), Lin({}, 4), Lin({}, 4 + L1), "first file name")
+    if L1 and not n1:
+        p1.append("no alternative takes the first name from the input")
+    ck.verdict("W-UNPACK", fn, f"first file name == data[4 : 4+{L1}] ({tag})", p1, f"{n1} slice alternative(s)")
+    two = act in TWO_NAME_ACTIONS
+    sec = simp(read_path(it, env, dec, "second_file_name"))
+    L2 = T("idx", data, C(4 + L1), ty="int")
+    if two:
+        p2, n2 = _extent_problems(sec, Lin({}, 5 + L1), Lin({L2: 1}, 5 + L1), "second file name")
+        if not n2:
+            p2.append("no alternative takes the second name from the input")
+        ck.verdict("W-UNPACK", fn, f"second file name == data[{5 + L1} : {5 + L1}+L2], L2 = octet {4 + L1} - offsets counted in octets ({tag})", p2, f"{n2} slice alternative(s)")
+    else:
+        leaves = [lf for lf in _octet_leaves(sec) if lf.k != "undef"]
+        ok = all((lf.k == "const" and lf.a[0] in ("", None, b"")) or (lf.k == "bcat" and not lf.a[0]) for lf in leaves)
+        ck.verdict("W-UNPACK", fn, f"no second file name for a single-name action ({tag})", [] if ok else [show(sec)[:80]], "empty", nontrivial=False)
+    if t0 == 1:
+        # filestore message LV follows the name LV(s)
+        base = Lin({L2: 1}, 5 + L1) if two else Lin({}, 4 + L1)
+        from ..decode_rules import lin_term
+        Lm = T("idx", data, lin_term(base) if not base.is_const() else C(base.c), ty="int")
+        try:
+            msg = simp(read_path(it, env, dec, "filestore_msg.value"))
+        except Exception as e:  # noqa: BLE001
+            ck.unknown("W-UNPACK", fn, f"filestore message located ({tag})", f"{type(e).__name__}: {e}")
+            return
+        pm, nm = _extent_problems(msg, base + Lin({}, 1), base + Lin({Lm: 1}, 1), "filestore message")
+        if not nm:
+            pm.append("no alternative takes the filestore message from the input")
+        ck.verdict("W-UNPACK", fn, f"filestore message == the LV that follows the file name LV(s), offsets counted in octets ({tag})", pm, f"{nm} slice alternative(s)")
 
 
 def D_leaf_slices(t):
